@@ -341,7 +341,7 @@ impl Property for C12 {
     const ID: &'static str = "C12";
     const RULE: &'static str = "proptest-generated https-through-proxy exchanges: origin host {domain, IPv4, IPv6} x port {default, explicit} x proxy URL {http, https} x proxy credentials {none, user, user:pass} x \
 CONNECT reply {status 100..=599, reason variants, 0..12 headers, body none / bytes up to 30 KiB / endless, head intact / cut at one or at every offset / garbage / I/O error} x segmentation x caller request carrying marker strings in \
-Authorization (basic/bearer), a custom header, the body and URL userinfo. For 2xx replies the peer continues as a rustls server on the same transport presenting the origin's or the proxy's fixture certificate. \
+Authorization (basic/bearer), a custom header, the body and URL userinfo, sent with the free functions or through a Session whose default headers (a token, a Cookie) carry markers too, directly or after a plain-http redirect hop. For 2xx replies the peer continues as a rustls server on the same transport presenting the origin's or the proxy's fixture certificate. \
 Oracle P1-P5 over the ordered write/serve log. non-trivial = non-2xx with body > 10 KiB, or a cut/garbage head, or a 2xx with markers present";
 
     fn assumptions() -> Vec<String> {
